@@ -577,8 +577,8 @@ class PragmaRegionAttacher(Transformer):
         # Then recurse over the new nodes
         visited = tuple(self.visit(i, **kwargs) for i in o)
 
-        # Strip empty sublists/subtuples or None entries
-        return tuple(i for i in visited if i is not None and as_tuple(i))
+        # Strip None entries and empty results of dropped nodes
+        return self._strip_dropped(o, visited)
 
     visit_list = visit_tuple
 
@@ -631,8 +631,8 @@ class PragmaRegionDetacher(Transformer):
         # First recurse over the new nodes
         visited = tuple(self.visit(i, **kwargs) for i in o)
 
-        # Strip empty sublists/subtuples or None entries
-        return tuple(i for i in visited if i is not None and as_tuple(i))
+        # Strip None entries and empty results of dropped nodes
+        return self._strip_dropped(o, visited)
 
     visit_list = visit_tuple
 
